@@ -236,7 +236,7 @@ fn manifest_edited(world: &mut World) {
 }
 
 /// Apply one edit; returns a description (None = not applicable here).
-fn apply_edit(world: &mut World, t: &mut Tape, prof: &Profile) -> Option<String> {
+pub fn apply_edit(world: &mut World, t: &mut Tape, prof: &Profile) -> Option<String> {
     let kind = t.weighted(&prof.edits);
     let (a, b, c) = (t.raw(), t.raw(), t.raw());
     let pickn = |x: u16, n: usize| if n == 0 { 0 } else { ((x as usize) * n) >> 16 };
@@ -489,7 +489,7 @@ fn apply_edit(world: &mut World, t: &mut Tape, prof: &Profile) -> Option<String>
     }
 }
 
-fn gen_spec(t: &mut Tape, world: &World, prof: &Profile) -> InvSpec {
+pub fn gen_spec(t: &mut Tape, world: &World, prof: &Profile) -> InvSpec {
     let proj = &world.disk;
     let j = [1, 2, 3, 4, 16][t.weighted(&[3, 4, 3, 2, 2])];
     let k = [None, Some(1), Some(2), Some(3), Some(9)][t.weighted(&[3, 2, 2, 1, 2])];
